@@ -38,11 +38,12 @@ Proof. intros st i s o. unfold hstep. destruct (nth_error (hs_docs st) i); refle
 
 Lemma read_keeps_config : forall st x, is_write x = false -> config (fst (hstep st x)) = config st.
 Proof.
-  intros st x H. destruct x as [i s o|i|i d|r k v]; try discriminate.
+  intros st x H. destruct x as [i s o|i|i d|r k v|i ls|i]; try discriminate.
   - rewrite parse_writes_nothing. reflexivity.
   - unfold hstep. destruct (nth_error (hs_docs st) i) as [d|] eqn:E; [|reflexivity].
     destruct (hd_parsed d); [reflexivity|]. unfold config. simpl. f_equal.
     rewrite map_set_nth. apply set_nth_same. rewrite nth_error_map, E. reflexivity.
+  - unfold hstep. destruct (nth_error (hs_docs st) i); reflexivity.
 Qed.
 
 (* a write is a function of the configuration *)
@@ -51,7 +52,7 @@ Proof.
   intros st1 st2 x H. destruct (is_write x) eqn:W.
   2:{ rewrite !read_keeps_config by exact W. exact H. }
   unfold config in H. inversion H as [[Hh Hd]].
-  destruct x as [i s o|i|i d|r k v]; try discriminate.
+  destruct x as [i s o|i|i d|r k v|i ls|i]; try discriminate.
   - unfold hstep.
     assert (E : option_map doc_config (nth_error (hs_docs st1) i) = option_map doc_config (nth_error (hs_docs st2) i))
       by (rewrite <- !nth_error_map; rewrite Hd; reflexivity).
@@ -60,6 +61,13 @@ Proof.
       inversion E as [[E1 E2 E3 E4]]. unfold doc_config. simpl. rewrite E1, E2, E3. reflexivity.
     + exact H.
   - unfold hstep, config. simpl. rewrite Hh, Hd. reflexivity.
+  - unfold hstep.
+    assert (E : option_map doc_config (nth_error (hs_docs st1) i) = option_map doc_config (nth_error (hs_docs st2) i))
+      by (rewrite <- !nth_error_map; rewrite Hd; reflexivity).
+    destruct (nth_error (hs_docs st1) i) as [d1|]; destruct (nth_error (hs_docs st2) i) as [d2|]; simpl in E; try discriminate.
+    + unfold config. simpl. rewrite Hh. f_equal. rewrite !map_set_nth. rewrite Hd. f_equal.
+      inversion E as [[E1 E2 E3 E4]]. unfold doc_config. simpl. rewrite E2, E3, E4. reflexivity.
+    + exact H.
 Qed.
 
 (* the observation of a parse is a function of the configuration *)
@@ -151,7 +159,7 @@ Qed.
 Lemma step_keeps_cache : forall st x i d r, nth_error (hs_docs st) i = Some d -> hd_parsed d = Some r ->
   exists d', nth_error (hs_docs (fst (hstep st x))) i = Some d' /\ hd_parsed d' = Some r.
 Proof.
-  intros st x i d r Hd Hr. destruct x as [j s o|j|j dict|ref k v].
+  intros st x i d r Hd Hr. destruct x as [j s o|j|j dict|ref k v|j ls|j].
   - rewrite parse_writes_nothing. eauto.
   - unfold hstep. destruct (nth_error (hs_docs st) j) as [dj|] eqn:Ej; [|simpl; eauto].
     destruct (hd_parsed dj) eqn:Pj; [simpl; eauto|]. simpl.
@@ -163,6 +171,11 @@ Proof.
     + rewrite (nth_error_set_nth _ i _ dj _ Ej). rewrite Ej in Hd. inversion Hd; subst. eexists. split; [reflexivity|exact Hr].
     + rewrite nth_error_set_nth_other by exact Hne. eauto.
   - simpl. eauto.
+  - unfold hstep. destruct (nth_error (hs_docs st) j) as [dj|] eqn:Ej; [|simpl; eauto]. simpl.
+    destruct (Nat.eq_dec j i) as [->|Hne].
+    + rewrite (nth_error_set_nth _ i _ dj _ Ej). rewrite Ej in Hd. inversion Hd; subst. eexists. split; [reflexivity|exact Hr].
+    + rewrite nth_error_set_nth_other by exact Hne. eauto.
+  - unfold hstep. destruct (nth_error (hs_docs st) j); simpl; eauto.
 Qed.
 
 Theorem history_parsed_cached : forall ops st i d r, nth_error (hs_docs st) i = Some d -> hd_parsed d = Some r ->
@@ -171,6 +184,39 @@ Proof.
   induction ops as [|x rest IH]; intros st i d r Hd Hr.
   - simpl. unfold hstep. rewrite Hd, Hr. reflexivity.
   - rewrite hexec_fst_cons. destruct (step_keeps_cache st x i d r Hd Hr) as [d' [Hd' Hr']]. apply (IH _ i d' r Hd' Hr').
+Qed.
+
+(* ---- the value: `lines` and parse always see the current value, whatever was read or parsed before *)
+Lemma lines_obs_config : forall st1 st2 i, config st1 = config st2 ->
+  snd (hstep st1 (HReadLines i)) = snd (hstep st2 (HReadLines i)).
+Proof.
+  intros st1 st2 i H. unfold config in H. inversion H as [[Hh Hd]]. unfold hstep.
+  assert (E : option_map doc_config (nth_error (hs_docs st1) i) = option_map doc_config (nth_error (hs_docs st2) i))
+    by (rewrite <- !nth_error_map; rewrite Hd; reflexivity).
+  destruct (nth_error (hs_docs st1) i) as [d1|]; destruct (nth_error (hs_docs st2) i) as [d2|]; simpl in E; try discriminate; [|reflexivity].
+  inversion E as [[E1 E2 E3 E4]]. simpl. rewrite E1. reflexivity.
+Qed.
+
+Theorem history_lines_current : forall st ops i,
+  snd (hstep (fst (hexec st ops)) (HReadLines i)) = snd (hstep (fst (hexec st (writes_only ops))) (HReadLines i)).
+Proof. intros. apply lines_obs_config. apply history_config_is_writes. reflexivity. Qed.
+
+(* after `value` has been assigned, whatever happened before (parses, reads of lines and parsed), the next parse is the
+   parse of the NEW lines and `lines` gives the new lines *)
+Theorem value_assignment_takes_effect : forall st ops i d ls s o, read_only ops = true ->
+  nth_error (hs_docs st) i = Some d ->
+  let st' := fst (hstep (fst (hexec st ops)) (HSetValue i ls)) in
+  snd (hstep st' (HReadLines i)) = ObsLines ls /\
+  snd (hstep st' (HParse i s o)) = ObsRes (parse_pure (hd_parent d) ls (pick_hstyle s (hd_parser d)) (in_force (hs_heap st) d o)).
+Proof.
+  intros st ops i d ls s o Hro Hd st'.
+  assert (Hc : config (fst (hexec st ops)) = config st) by (apply parse_preserves_options; exact Hro).
+  assert (Hc' : config st' = config (fst (hstep st (HSetValue i ls)))) by (apply write_config; exact Hc).
+  split.
+  - rewrite (lines_obs_config st' _ i Hc'). unfold hstep at 2. rewrite Hd. simpl.
+    rewrite (nth_error_set_nth _ i _ d _ Hd). reflexivity.
+  - rewrite (parse_obs_config st' _ i s o Hc'). unfold hstep at 2. rewrite Hd. simpl.
+    rewrite (nth_error_set_nth _ i _ d _ Hd). reflexivity.
 Qed.
 
 (* ---- aliasing: two docstrings of one load share dictionary 0; a third has its own.
